@@ -259,7 +259,15 @@ def main():
             evid_conditions.append(entry)
         # ---- 5. known findings: replay the listed witnesses (no exclusion applies on replay)
         kreqs = [dict(module=k.get("module", module), condition=k["condition"], args=k["args"]) for k in known]
-        kres = plain_replay(kreqs, td, "known", VF_NO_EXCLUSIONS="1") if kreqs else []
+        # 'known' witnesses run with every exclusion predicate switched off (they must show the defect itself);
+        # 'fixed' witnesses are plain regression cases of the normal check (exclusions of OTHER findings stay on)
+        kres = [None] * len(known)
+        for status, env in (("known", {"VF_NO_EXCLUSIONS": "1"}), ("fixed", {})):
+            idx = [i for i, k in enumerate(known) if k["status"] == status]
+            if idx:
+                rs = plain_replay([kreqs[i] for i in idx], td, "known-" + status, **env)
+                for i, r in zip(idx, rs):
+                    kres[i] = r
         known_out = []
         for k, r in zip(known, kres):
             still = not r.get("ok")
